@@ -175,7 +175,7 @@ func gen(r *hx.Rng, tier string, i int) []hx.Zs {
 	}
 	for len(h) < len(pl.Prefix)+n {
 		p := pl.Peers[r.Intn(len(pl.Peers))]
-		switch r.Pick(40, 14, 16, 6, 8, 8, 3, 3, 2) {
+		switch r.Pick(40, 14, 16, 6, 8, 8, 3, 3, 2, 3, 3) {
 		case 0: // subscribe
 			var cli stack.FAddr
 			if r.Chance(5, 6) {
@@ -240,10 +240,31 @@ func gen(r *hx.Rng, tier string, i int) []hx.Zs {
 			if connected[p.Ski] {
 				h = append(h, stack.OpDisconnect(p.Ski))
 				connected[p.Ski] = false
-			} else {
+			} else if r.Chance(2, 3) {
 				h = append(h, stack.OpConnect(p.Ski), stack.OpDiscoveryReply(p.Ski, p.Msg(0, nil)))
 				connected[p.Ski] = true
+			} else {
+				// the peer subscribes through its node-management feature (and names a feature it has
+				// not announced) before it answers the discovery request; the reply follows
+				h = append(h, stack.OpConnect(p.Ski))
+				connected[p.Ski] = true
+				c := call{p.Ski, p.NMAddr(false), stack.NodeMgmt.Addr(r.Bool())}
+				calls = append(calls, c)
+				h = append(h, stack.OpSubCall(p.Ski, next(p.Ski), r.Bool(), c.cli, c.srv, 6))
+				if r.Bool() {
+					lf := pl.Local[r.Intn(len(pl.Local))]
+					h = append(h, stack.OpSubCall(p.Ski, next(p.Ski), r.Bool(), p.Addr(p.Feats[r.Intn(len(p.Feats))], false), lf.Addr(true), lf.Type+1))
+					h = append(h, stack.OpSubDelete(p.Ski, next(p.Ski), r.Bool(), p.Addr(p.Feats[r.Intn(len(p.Feats))], false), lf.Addr(true)))
+				}
+				h = append(h, stack.OpListSubs(p.Ski))
+				if r.Chance(3, 4) {
+					h = append(h, stack.OpDiscoveryReply(p.Ski, p.Msg(0, nil)), stack.OpListSubs(p.Ski))
+				}
 			}
+		case 9: // notification mixing added and removed entries
+			h = append(h, stack.OpDiscoveryNotify(p.Ski, next(p.Ski), r.Bool(), p.MixedNotify(r)), stack.OpListSubs(p.Ski))
+		case 10: // a further discovery reply that omits entities announced before (and sometimes [0])
+			h = append(h, stack.OpDiscoveryReply(p.Ski, p.PartialReply(r)), stack.OpListSubs(p.Ski))
 		case 7: // entity removed / re-added
 			if len(p.Ents) > 1 {
 				e := p.Ents[1+r.Intn(len(p.Ents)-1)]
